@@ -1,6 +1,7 @@
 """C16 — decoding an element reads exactly its declared extent."""
 import json
 import random
+import sys
 
 from vlib import common, gens, streams
 
@@ -136,6 +137,58 @@ def run(chk, model_ok=True):
                 if bad <= 5:
                     chk.violation("oracle", f"header extent differs from X.690: {ln[:120]} -> {out[:100]} (expected {want[:100]})",
                                   {"kind": "oracle", "lines": [ln], "impl": [out], "expected": want})
+    # declared lengths inside an ENCRYPTED scoped PDU that run past the decrypted msgData: the decoder works on
+    # the cipher object's private buffer, which holds older traffic beyond the plaintext; nothing of it may be read
+    from vlib import e2e, sessions
+    sys.path.insert(0, "/verif/harness/py")
+    import ber
+    env = e2e.env()
+    n_enc = 0
+
+    def fake(tag, content, extra):
+        return bytes([tag]) + ber.enc_len(len(content) + extra) + content
+
+    for peer in (e2e.Peer("v3", auth=1, priv=1), e2e.Peer("v3", auth=2, priv=1, auth_kt="localized", priv_kt="localized"),
+                 e2e.Peer("v3", auth=2, priv=2)):
+        stp = peer.state
+        sx = sessions.Sess(env, peer, rng)
+        for it in range(8 if quick else 150):
+            # history first: some traffic that stays in the private buffer
+            for _ in range(rng.randrange(0, 3)):
+                rec = sx.send("get", sessions.rand_oid_text(rng))
+                if rec["result"][0] == "ok" and sx.conv.req and rng.random() < 0.5:
+                    q = sx.conv.req
+                    sx.recv("get", [peer.response(q, [ber.varbind(tuple(q["varbinds"][0][0]), ber.OCT(bytes(range(40))))])])
+            rec = sx.send("get", "1.3.6.1.2.1.1.1.0")
+            q = sx.conv.req
+            if rec["result"][0] != "ok" or not q or "request_id" not in q:
+                continue
+            data = bytes(rng.getrandbits(8) for _ in range(rng.randrange(0, 12)))
+            # the agent zero-pads DES plaintext to a multiple of 8: the padding IS decrypted msgData, so the declared
+            # lengths must exceed it to run past the data (sizes are the same for every `extra` below 100)
+            probe = fake(0x30, ber.OCT(stp.engine_id) + ber.OCT(b"") + fake(0xA2, ber.INT(q["request_id"]) + ber.INT(0) + ber.INT(0)
+                         + fake(0x30, fake(0x30, ber.OID((1, 3, 6, 1, 2, 1, 1, 1, 0)) + fake(0x04, data, 9), 9), 9), 9), 9)
+            pad = (-len(probe)) % 8 if stp.priv_alg == 1 else 0
+            extra = pad + rng.choice([1, 7, 8, 16, 40])
+            value = fake(0x04, data, extra)
+            vbind = fake(0x30, ber.OID((1, 3, 6, 1, 2, 1, 1, 1, 0)) + value, extra)
+            vbl = fake(0x30, vbind, extra)
+            pdu = fake(0xA2, ber.INT(q["request_id"]) + ber.INT(0) + ber.INT(0) + vbl, extra)
+            scoped = fake(0x30, ber.OCT(stp.engine_id) + ber.OCT(b"") + pdu, extra)
+            ct, salt = stp.encrypt(scoped, stp.boots, stp.time)
+            flags = 3
+            msg = ber.msg_v3(q["msg_id"], flags, stp.engine_id, stp.boots, stp.time, stp.user, bytes(12), salt, ber.OCT(ct))
+            import usm as _usm
+            msg = _usm.sign(msg, ber.decode_message(msg)["auth_params_offset"], stp.auth_alg, stp.auth_key)
+            n_enc += 1
+            r = sx.recv("get", [msg])["result"]
+            if r[0] == "ok":
+                chk.violation("oracle", f"{sx.label}: an encrypted reply whose inner lengths run {extra} octets past the decrypted msgData was "
+                              f"accepted and delivered {r[1]!r:.80} (octets beyond the plaintext were read)",
+                              {"kind": "oracle", "lines": [sx.line()[:400000]], "extra": extra})
+                break
+        nl_, nd_ = sessions.model_compare(chk, [sx], model_ok)
+    chk.coverage["encrypted_overrun_cases"] = n_enc
     st0.diff("C16 decoders (base)")
     st.diff("C16 decoders (appended / truncated)")
     st.coverage(
